@@ -46,12 +46,31 @@ def decorate(prog, rng, custom_types=True):
             n['method_doc'] = f'method doc of {nid}'
         if rng.random() < 0.3:
             n['verbose_name'] = f'Verbose {nid}'
-    # generics: turn some plain, non-start, non-input nodes into build_node derivatives
+    # subclass nodes: a node class deriving from another node class of the same pipeline
+    plain = [nid for nid in prog['order'] if nid != prog['input'] and prog['nodes'][nid].get('kind', 'plain') == 'plain'
+             and not prog['nodes'][nid].get('recurrent') and not prog['nodes'][nid].get('start_of')]
+    for nid in plain:
+        n = prog['nodes'][nid]
+        earlier = [b for b in plain if prog['order'].index(b) < prog['order'].index(nid)
+                   and not prog['nodes'][b].get('base')]
+        if earlier and rng.random() < 0.12:
+            n['base'] = rng.choice(earlier)
+            n['explicit_tags'] = True
+            if n.get('nm') == 'none':
+                n['nm'] = 'id'
+    # generics: turn some plain, non-start, non-input nodes into build_node derivatives; several
+    # specialisations may share one generic base class
+    bases = {}
     for nid in list(prog['order']):
         n = prog['nodes'][nid]
-        if nid == prog['input'] or n.get('start_of') or n.get('kind') == 'dest' or n.get('nm', 'id') != 'id':
+        if nid == prog['input'] or n.get('start_of') or n.get('kind') == 'dest' or n.get('nm', 'id') != 'id' \
+                or n.get('base') or any(prog['nodes'][x].get('base') == nid for x in prog['nodes']):
             continue
-        if n.get('params') and all(m[0] in ('in', 'sw', 'oneof', 'rec') for _, m in n['params']) and rng.random() < 0.15:
+        if n.get('params') and all(m[0] in ('in', 'sw', 'oneof', 'rec') for _, m in n['params']) and rng.random() < 0.2:
+            sig = (tuple(p for p, _ in n['params']), n.get('mode'))
+            if sig in bases and rng.random() < 0.6:
+                n['generic_of'] = bases[sig]
+                continue
             base_id = f'G{nid[1:]}'
             base = copy.deepcopy(n)
             base['id'] = base_id
@@ -61,6 +80,7 @@ def decorate(prog, rng, custom_types=True):
             n['generic_of'] = base_id
             idx = prog['order'].index(nid)
             prog['order'].insert(idx, base_id)
+            bases[sig] = base_id
     return prog
 
 
@@ -70,7 +90,10 @@ def engine_id(prog, nid, modname):
         b = prog['nodes'][n['generic_of']]
         nt = b['node_type'] if 'node_type' in b else 'processor'
         return f'{nt or "node"}__{nid}'
-    nt = n['node_type'] if 'node_type' in n else 'processor'
+    x = n
+    while 'node_type' not in x and x.get('base') in prog['nodes']:
+        x = prog['nodes'][x['base']]
+    nt = x['node_type'] if 'node_type' in x else 'processor'
     nm = n.get('nm', 'id')
     if nm == 'id':
         name = nid
@@ -363,6 +386,8 @@ def inject(prog, nid, defect):
     p = copy.deepcopy(prog)
     n = p['nodes'][nid]
     if defect == 'not_a_class':
+        if any(x.get('base') == nid or x.get('generic_of') == nid for x in p['nodes'].values()):
+            return None     # other classes derive from it: the module itself would not import
         n['raw_src'] = f'{nid} = rt.NotAClass({nid!r})'
         return p, 'IncorrectTypeClass'
     if defect == 'no_base':
@@ -399,6 +424,26 @@ def inject(prog, nid, defect):
         n['no_additional_data'] = True
         return p, 'IncorrectParamsRecurrentNode'
     return None
+
+
+def add_dest_reader(prog, rng):
+    """A recurrent destination that is additionally read through a plain Input: either by its own consumer
+    (listed before the RecurrentSubGraph mark) or by the output node (listed last)."""
+    recs = [(nid, i, m) for nid in prog['order'] if nid in gen.reachable(prog)
+            for i, (_, m) in enumerate(prog['nodes'][nid].get('params', [])) if m[0] == 'rec']
+    if not recs:
+        return
+    nid, i, m = rng.choice(recs)
+    n = prog['nodes'][nid]
+    if n.get('generic_of') or n.get('generic_base'):
+        return
+    if rng.random() < 0.5:
+        n['params'].insert(rng.randint(0, i), ['zr', ['in', m[2]]])
+    else:
+        out = prog['nodes'][prog['output']]
+        if out.get('generic_of') or prog['output'] == m[2] or any(mm[0] == 'in' and mm[1] == m[2] for _, mm in out['params']):
+            return
+        out['params'].append(['zr', ['in', m[2]]])
 
 
 def reach_kind(prog, nid):
@@ -447,6 +492,8 @@ def work_c16(prop, tier, seed, widx, nworkers):
     for i in range(nprog):
         base = gen.gen_program(rng, gen.profile(p_sw=0.25, p_oneof=0.25, p_rec=0.25, p_markless=0.15))
         prog = decorate(base, rng) if rng.random() < 0.5 else base
+        if rng.random() < 0.5:
+            add_dest_reader(prog, rng)
         prog['tags'] = sorted(gen.analyze(prog))
         acc.programs += 1
         # valid direction
